@@ -244,8 +244,10 @@ def finish(chk, level='proof', explanation=None, assumptions=None):
           % (chk.pid, chk.tier, n_ob, n_ok, len(known_hit), len(new_viol), len(chk.analysed['functions']),
              chk.analysed['paths'], ','.join(sorted(chk.analysed['configs'])), wall))
     if new_viol:
-        for o in new_viol[:25]:
-            print('  - %s [%s] %s :: %s' % (o['key'], o['status'], o['where'] or '', (o['detail'] or '')[:300]))
+        for o in new_viol[:15]:
+            print(('  - %s [%s] %s :: %s' % (o['key'], o['status'], o['where'] or '', (o['detail'] or '').replace('\n', ' ')))[:330])
+        if len(new_viol) > 15:
+            print('  ... and %d more (see the report)' % (len(new_viol) - 15))
         print('VIOLATION property=%s replay=%s' % (chk.pid, report_path))
         return 1
     return 0
